@@ -168,7 +168,7 @@ def prepare(verbose=True):
 # ---------------------------------------------------------------------------------------- queries
 class Query:
     def __init__(self, name, harness, entry, defines=None, unwind=8, unwindset=None, lib="call", ub=True, frozen=False, timeout=None,
-                 cbmc_flags=None, expose=None, tiers=("quick", "thorough"), note="", solver=None, objbits=None, leak=False, known=None, inline=None):
+                 cbmc_flags=None, expose=None, tiers=("quick", "thorough"), note="", solver=None, objbits=12, leak=False, known=None, inline=None):
         self.name, self.harness, self.entry = name, harness, entry
         self.defines = defines or {}
         self.unwind, self.unwindset = unwind, unwindset or {}
@@ -207,7 +207,7 @@ def build_query(q, cache, ll2c, qdir, witness):
     mll = os.path.join(qdir, f"m.{tag}.ll")
     sh(["llvm-link-14", "-S", "-o", mll, hll, lib])
     oll = os.path.join(qdir, f"o.{tag}.ll")
-    sh(["opt-14", "-S", "-passes=internalize,globaldce,function(scalarizer)", f"-internalize-public-api-list={q.entry},ll_frozen_check", mll, "-o", oll])
+    sh(["opt-14", "-S", "-passes=internalize,globaldce,function(scalarizer,loop-simplify)", f"-internalize-public-api-list={q.entry},ll_frozen_check", mll, "-o", oll])
     c = os.path.join(qdir, f"m.{tag}.c")
     flags = ["--prelude", f"{TOOL}/ll2c_prelude.h"]
     if q.ub and not witness: flags.append("--ub")
@@ -234,8 +234,9 @@ def loop_bounds(q, gb, cfile):
             if pat.endswith(".recursion"): continue
             if (sf and re.fullmatch(pat, sf)) or re.search(pat, lid):
                 sets.append(f"{lid}:{b}"); break
+    ctext = "\n".join(lines)
     for pat, b in q.unwindset.items():
-        if pat.endswith(".recursion"): sets.append(f"{pat[:-10]}:{b}")
+        if pat.endswith(".recursion") and re.search(r"\b" + re.escape(pat[:-10]) + r"\(", ctext): sets.append(f"{pat[:-10]}:{b}")
     return sets, info
 
 
@@ -334,7 +335,7 @@ def native_replay(q, rdir, vals, repo=REPO):
     with open(os.path.join(rdir, "values.txt"), "w") as f:
         f.write(f"# nondet return values in call order for {q.harness}:{q.entry} {q.defines}\n")
         for k, v in vals: f.write(f"{v:#x}\n")
-    meta = {"harness": q.harness, "entry": q.entry, "defines": q.defines, "lib": q.lib, "name": q.name}
+    meta = {"harness": q.harness, "entry": q.entry, "defines": q.defines, "lib": q.lib, "name": q.name, "leak": q.leak}
     json.dump(meta, open(os.path.join(rdir, "meta.json"), "w"), indent=1)
     return run_replay(rdir)
 
@@ -355,7 +356,7 @@ def run_replay(rdir):
     exe = os.path.join(rdir, "replay.exe")
     sh(["clang++-14"] + NATIVEFLAGS + san + ["-fno-access-control", "-DVH_NATIVE", f"-DVH_ENTRY_NAME={meta['entry']}", f"-I{HARN}",
         os.path.join(HARN, meta["harness"]), os.path.join(HARN, "replay_rt.cpp")] + defs + glob.glob(os.path.join(objdir, "*.o")) + ["-o", exe])
-    env = dict(os.environ, VH_VALUES=os.path.join(rdir, "values.txt"), ASAN_OPTIONS="detect_leaks=1:abort_on_error=0:exitcode=43", UBSAN_OPTIONS="print_stacktrace=1:halt_on_error=1:exitcode=44")
+    env = dict(os.environ, VH_VALUES=os.path.join(rdir, "values.txt"), ASAN_OPTIONS=("detect_leaks=1" if meta.get("leak") else "detect_leaks=0") + ":abort_on_error=0:exitcode=43", UBSAN_OPTIONS="print_stacktrace=1:halt_on_error=1:exitcode=44")
     try:
         p = subprocess.run([exe], env=env, stdout=subprocess.PIPE, stderr=subprocess.STDOUT, text=True, timeout=60)
         outp, rc = p.stdout, p.returncode
@@ -492,7 +493,7 @@ def main():
     for r in violations:
         rp = r.get("replay", {})
         print("VIOLATION property=%s replay=%s query=%s confirmed_by_native_replay=%s failed=%s" % (
-            a.pid, rp.get("dir", "-"), r["name"], rp.get("reproduced"), "; ".join(sorted(set(f["description"] for f in r["failed"]))[:4])))
+            a.pid, rp.get("dir", "-"), r["name"], rp.get("reproduced"), "; ".join(sorted(set((f["description"] + (" [" + str(f.get("property")) + "]" if f["kind"] == "unwind" else "")) for f in r["failed"]))[:4])))
     for r in machinery: print("MACHINERY-ERROR query=%s verdict=%s %s" % (r["name"], r["verdict"], r.get("error", "")[:500]))
     if not a.no_evidence: write_evidence(a.pid, a.tier, seed, recs, val, violations, knownhits, time.time() - t0, qs)
     sys.exit(1 if violations else (2 if machinery else 0))
